@@ -24,6 +24,11 @@ type AnalyzedProgram struct {
 func (self AnalyzedProgram) String() string {
 	imports := ""
 	for _, item := range self.Imports {
+		// Type and template imports of code modules are resolved during analysis and filtered out:
+		// an import statement without any item left does not parse, it is not printed.
+		if len(item.ToImport) == 0 {
+			continue
+		}
 		imports += item.String() + "\n"
 	}
 	if imports != "" {
